@@ -182,18 +182,11 @@ def floatResult (F : FloatOps) (o : AOp) (fx fy : UInt64) : Except Err SVal :=
   | .div => if isZeroBits fy then .error .zeroDivision else .ok (.flt (F.div fx fy))
   | .mod => match pyFloatMod F fx fy with | .ok w => .ok (.flt w) | .error e => .error e
 
-theorem roundRat_one_ne_zeroDen (i : Int) : FloatRound.roundRat i 1 ≠ .zeroDen := by
-  intro h
-  rw [FloatRound.roundRat, if_neg Nat.one_ne_zero, FloatRound.finish] at h
-  split at h <;> cases h
-
 theorem toFloat_err {i : Int} {e : Err} (h : toFloat i = .error e) : e = .overflow := by
   unfold toFloat at h
   split at h
   · cases h
   · cases h; rfl
-  · rename_i hz
-    exact absurd hz (roundRat_one_ne_zeroDen i)
 
 theorem toF_err {x : Num} {e : Err} (h : x.toF = .error e) : e = .overflow := by
   cases x with
